@@ -316,6 +316,13 @@ class DependencyTransformation(Transformation):
                 return s
             return s[:index] + new + s[index + len(old):]
 
+        def _suffixed(s):
+            # A symbol that is renamed on import (``local => name``) refers to ``name`` in the
+            # renamed module, which carries the suffix as well
+            if (use_name := getattr(s.type, 'use_name', None)):
+                return s.clone(name=f'{s.name}{self.suffix}', type=s.type.clone(use_name=f'{use_name}{self.suffix}'))
+            return s.clone(name=f'{s.name}{self.suffix}')
+
         # Import statements still point to unmodified call names
         calls = {replace_last(call, f'{self.suffix.lower()}', '') for call in calls}
         call_targets = {call for call in calls if call in as_tuple(targets)}
@@ -338,15 +345,14 @@ class DependencyTransformation(Transformation):
                         # Mixed import: We need to split the import, retaining the original name for
                         # non-target imports and using the new name for target imports
                         import_map[im] = tuple(
-                            im.clone(module=new_module_name, symbols=(s.clone(name=f'{s.name}{self.suffix}'),))
+                            im.clone(module=new_module_name, symbols=(_suffixed(s),))
                             if s in call_targets else im.clone(symbols=(s,))
                             for s in im.symbols
                         )
                     else:
                         # Append suffix to all symbols and in-place update the import
                         symbols = tuple(
-                            s.clone(name=f'{s.name}{self.suffix}')
-                            if s in call_targets else s for s in im.symbols
+                            _suffixed(s) if s in call_targets else s for s in im.symbols
                         )
                         im._update(module=new_module_name, symbols=symbols)
 
